@@ -114,7 +114,10 @@ func (m *ledgerMon) check(h uint32, b *BlockSpec, prevDump, dump []string, prevW
 		} else if strings.Contains(diff, m.mintHex) {
 			sig = "history-replay:mint-address"
 		}
-		m.violate(sig+":"+eraOf(a, h), diff, h)
+		if sig == "history-replay:balances-differ" {
+			sig += ":" + eraOf(a, h)
+		}
+		m.violate(sig, diff, h)
 	}
 	if !applied {
 		return
@@ -373,6 +376,11 @@ func runLedgerChain(rep *Report, seed int64, variant int, tier string) {
 				}
 			}
 		}
+		if h == s.Acts.Pegnet+2 && variant%2 == 1 {
+			// two holders with equal, very large stakes: the staking total exceeds the cap and the
+			// rounding dust has to be assigned among exactly tied top stakers
+			b.FCT = append(b.FCT, Burn(h, g.Users[0].FA(), 4e14, 7), Burn(h, g.Users[1].FA(), 4e14, 8))
+		}
 		res := run.Step(b)
 		shape := fmt.Sprintf("%s|opr%d|spr%d|tx%d|fct%d|%s", eraOf(s.Acts, h), len(b.OPR), len(b.SPR), len(b.TX), len(b.FCT), res.ImplClass)
 		rep.Case(shape, len(b.OPR)+len(b.SPR)+len(b.TX)+len(b.FCT) > 0)
@@ -391,6 +399,7 @@ func runLedgerChain(rep *Report, seed int64, variant int, tier string) {
 		mon.check(h, b, prevDump, res.Dump, prevWinners, top, res.ImplOK)
 		if !res.ImplOK {
 			rep.Sample(map[string]interface{}{"height": h, "era": eraOf(s.Acts, h), "result": res.ImplClass, "msg": res.ImplMsg})
+			mon.violate("liveness:"+res.ImplClass+":"+eraOf(s.Acts, h), "block cannot be applied: "+res.ImplMsg, h)
 			if err := run.RecoverFrom(res); err != nil {
 				rep.Note("infrastructure: %v", err)
 				return
@@ -403,6 +412,9 @@ func runLedgerChain(rep *Report, seed int64, variant int, tier string) {
 			}
 		}
 		prevDump = res.Dump
+		if h == last {
+			pagingCheck(rep, run, g, s, seed)
+		}
 		if h%61 == 0 {
 			rep.Sample(map[string]interface{}{"height": h, "era": eraOf(s.Acts, h), "opr": len(b.OPR), "spr": len(b.SPR), "tx": len(b.TX), "dump_lines": len(res.Dump)})
 		}
@@ -410,3 +422,70 @@ func runLedgerChain(rep *Report, seed int64, variant int, tier string) {
 }
 
 func init() { scenarios["ledger"] = scenLedger }
+
+
+// pagingCheck (C17): every recorded action is returned exactly once by the hash / address /
+// height queries across pages, and the reported count equals the number of rows returned.
+func pagingCheck(rep *Report, run *Run, g *Gen, s Setup, seed int64) {
+	p := run.D.N.Pegnet
+	type key struct {
+		hash string
+		idx  int
+	}
+	collect := func(what string, fetch func(off int) ([]pegnet.HistoryTransaction, int, error)) {
+		seen := map[key]bool{}
+		total := -1
+		n := 0
+		for off := 0; ; off += pegnet.QueryLimit {
+			rows, count, err := fetch(off)
+			if err != nil {
+				if off > 0 && strings.Contains(err.Error(), "offset too big") {
+					break
+				}
+				if off == 0 {
+					return
+				}
+				break
+			}
+			if total == -1 {
+				total = count
+			}
+			for _, r := range rows {
+				k := key{r.Hash.String(), r.TxIndex}
+				if seen[k] {
+					rep.Violate("paging:duplicate", fmt.Sprintf("%s: action %s/%d returned twice across pages", what, k.hash, k.idx), "")
+				}
+				seen[k] = true
+				n++
+			}
+			if len(rows) < pegnet.QueryLimit {
+				break
+			}
+		}
+		rep.Count("paging:queries")
+		if total >= 0 && n != total {
+			rep.Violate("paging:count", fmt.Sprintf("%s: count says %d, pages returned %d", what, total, n), "")
+		}
+	}
+	for _, u := range g.Users {
+		a := u.FA()
+		for _, desc := range []bool{false, true} {
+			d := desc
+			collect("address "+a.String(), func(off int) ([]pegnet.HistoryTransaction, int, error) {
+				return p.SelectTransactionHistoryActionsByAddress(&a, pegnet.HistoryQueryOptions{Offset: off, Desc: d})
+			})
+		}
+	}
+	for _, m := range g.MinerFA[:6] {
+		a := m
+		collect("miner "+a.String(), func(off int) ([]pegnet.HistoryTransaction, int, error) {
+			return p.SelectTransactionHistoryActionsByAddress(&a, pegnet.HistoryQueryOptions{Offset: off, Coinbase: true})
+		})
+	}
+	for h := s.Acts.Pegnet + 1; h <= s.Acts.Pegnet+160; h += 7 {
+		hh := h
+		collect(fmt.Sprintf("height %d", hh), func(off int) ([]pegnet.HistoryTransaction, int, error) {
+			return p.SelectTransactionHistoryActionsByHeight(hh, pegnet.HistoryQueryOptions{Offset: off})
+		})
+	}
+}
